@@ -316,8 +316,10 @@ def finish(ctx):
     ev = dict(property_id=ctx.prop, tier=ctx.tier, seed=ctx.seed, level=ctx.level, coverage=cov,
               assumptions=ctx.assumptions, wall_s=round(time.time() - ctx.t0, 2),
               violations=len(new), known_findings_hit=sorted(old.keys()), notes=ctx.notes)
-    os.makedirs(os.path.join(VERIF, "evidence"), exist_ok=True)
-    json.dump(ev, open(os.path.join(VERIF, "evidence", ctx.prop + ".json"), "w"), indent=1, default=str)
+    # extension checks (X01, X02, ...: behaviour outside the 20 listed properties) keep their evidence apart
+    evdir = os.path.join(VERIF, "ext", "evidence") if ctx.prop.startswith("X") else os.path.join(VERIF, "evidence")
+    os.makedirs(evdir, exist_ok=True)
+    json.dump(ev, open(os.path.join(evdir, ctx.prop + ".json"), "w"), indent=1, default=str)
     if rc == 0:
         print("OK property=%s tier=%s seed=%d wall=%.1fs" % (ctx.prop, ctx.tier, ctx.seed, time.time() - ctx.t0))
     return rc
